@@ -21,7 +21,83 @@ def _defs_of(fn_node, name):
             and any(isinstance(t, ast.Name) and t.id == name for t in n.targets)]
 
 
+def order_preserved_rule(index, rep, rid):
+    """Tree.from_split_bitmasks adds the splits greedily IN THE ORDER GIVEN (decreasing frequency): between the
+    parameter and the adding loop the sequence is only filtered / mapped element by element, never passed through a
+    set, a dict or a sort."""
+    f = index.function("dendropy.datamodel.treemodel._tree.Tree.from_split_bitmasks")
+    derived = {"split_bitmasks"}
+    changed = True
+    while changed:
+        changed = False
+        for n in walk_no_nested(f.node):
+            if isinstance(n, ast.For) and names_in(n.iter) & derived:
+                for t in ast.walk(n.target):
+                    if isinstance(t, ast.Name) and t.id not in derived:
+                        derived.add(t.id)
+                        changed = True
+            if isinstance(n, ast.Assign) and isinstance(n.targets[0], ast.Name) and names_in(n.value) & derived and n.targets[0].id not in derived:
+                derived.add(n.targets[0].id)
+                changed = True
+            if isinstance(n, ast.Expr) and isinstance(n.value, ast.Call) and isinstance(n.value.func, ast.Attribute) and n.value.func.attr in ("append", "extend") \
+                    and isinstance(n.value.func.value, ast.Name) and any(names_in(a) & derived for a in n.value.args) and n.value.func.value.id not in derived:
+                derived.add(n.value.func.value.id)
+                changed = True
+    loops = [l for l in walk_no_nested(f.node) if isinstance(l, ast.For) and isinstance(l.iter, ast.Name) and l.iter.id in derived
+             and any(isinstance(c, ast.Call) and call_name(c) in ("node_factory", "new_node", "Node") for c in ast.walk(l))]
+    if len(loops) != 1:
+        raise AnalysisError("%s: the greedy adding loop of from_split_bitmasks was not recognised" % rid)
+    bad = []
+    for n in walk_no_nested(f.node):
+        if isinstance(n, ast.Call) and ((isinstance(n.func, ast.Name) and n.func.id in ("set", "frozenset", "sorted", "dict", "reversed")) or (isinstance(n.func, ast.Attribute) and n.func.attr in ("sort", "reverse", "fromkeys", "shuffle"))):
+            args = list(n.args) + ([n.func.value] if isinstance(n.func, ast.Attribute) else [])
+            if any(isinstance(a, ast.Name) and a.id in derived - {"split_bitmasks"} | ({"split_bitmasks"} if isinstance(a, ast.Name) and a.id == "split_bitmasks" else set()) for a in args) and n.lineno < loops[0].lineno:
+                # building the set of leaves / masks for membership tests is fine; only a value that flows on into the loop's sequence matters
+                pm = parent_map(f.node)
+                st = enclosing_stmt(n, pm)
+                flows = isinstance(st, ast.Assign) and isinstance(st.targets[0], ast.Name) and (st.targets[0].id == loops[0].iter.id or st.targets[0].id in _flows_into(f, loops[0].iter.id))
+                inplace = isinstance(n.func, ast.Attribute) and isinstance(n.func.value, ast.Name) and (n.func.value.id == loops[0].iter.id or n.func.value.id in _flows_into(f, loops[0].iter.id))
+                if flows or inplace:
+                    bad.append(n)
+    rep.check(not bad, rid, f.qualname, "order of the splits lost before the greedy loop: %s" % (norm(bad[0])[:50] if bad else ""), fn_where(f, bad[0] if bad else loops[0]),
+              "from_split_bitmasks adds the splits in the order it was given them (`for %s in %s`)" % (norm(loops[0].target), norm(loops[0].iter)),
+              "Tree.from_split_bitmasks passes the splits through `%s` before its greedy loop: the caller's decreasing-frequency order is lost, so for thresholds of one half or less a less frequent split can be added first and displace a more frequent conflicting one" % (norm(bad[0])[:60] if bad else ""))
+
+
+def _flows_into(f, target):
+    """names whose value flows (by assignment / append / comprehension) into `target`"""
+    out = set()
+    changed = True
+    while changed:
+        changed = False
+        for n in walk_no_nested(f.node):
+            if isinstance(n, ast.Assign) and isinstance(n.targets[0], ast.Name) and (n.targets[0].id == target or n.targets[0].id in out):
+                for nm in names_in(n.value):
+                    if nm not in out:
+                        out.add(nm)
+                        changed = True
+            if isinstance(n, ast.Expr) and isinstance(n.value, ast.Call) and isinstance(n.value.func, ast.Attribute) and n.value.func.attr in ("append", "extend") \
+                    and isinstance(n.value.func.value, ast.Name) and (n.value.func.value.id == target or n.value.func.value.id in out):
+                cur = n
+                # the loop variables feeding the append
+                for nm in set().union(*[names_in(a) for a in n.value.args]) if n.value.args else set():
+                    if nm not in out:
+                        out.add(nm)
+                        changed = True
+            if isinstance(n, ast.For) and any(isinstance(t, ast.Name) and t.id in out for t in ast.walk(n.target)):
+                for nm in names_in(n.iter):
+                    if nm not in out:
+                        out.add(nm)
+                        changed = True
+    return out
+
+
 def rule_sort_order(index, rep, rid):
+    order_preserved_rule(index, rep, rid)
+    _rule_sort_order(index, rep, rid)
+
+
+def _rule_sort_order(index, rep, rid):
     """The list handed to from_split_bitmasks by SplitDistribution.consensus_tree
     is sorted descending by (frequency, split): a total order that does not
     depend on dict insertion (= arrival) order."""
@@ -257,6 +333,11 @@ def run(index, rep, tier):
         rep.check(ok, "R05.2", cn.qualname, "normaliser returns", fn_where(cn),
                   "calc_normalization_weight returns sum_of_tree_weights (or total_trees_counted when that is zero): %s" % rets,
                   "calc_normalization_weight returns %s: not the sum of the weights that were added to the counts" % rets)
+
+    # ---------------- R05.2 merges add like to like
+    with rep.section("R05.2 like to like"):
+        from . import c06
+        rep.floor("R05.2", "field-to-field merges in SplitDistribution.update", 5, c06.like_to_like_rule(index, rep, "R05.2", [SD + ".update"]))
 
     # ---------------- R05.3
     with rep.section("R05.3"):
